@@ -6,6 +6,7 @@ exactly the rows of the wrapped table, in order, on every pass (also on abandone
 Oracle 2 (the statement's own): after a complete pass the tee target holds what the corresponding to*
 function writes for the same table and arguments into a target of the same kind.
 """
+import contextlib
 import io
 import itertools
 import logging
@@ -33,7 +34,9 @@ RULE = ('state = (table, wrapper, arguments, target kind, pass pattern). Tables:
         'encode (strict: encodable text only); target kinds: all four for the '
         'plain configurations (encoding x write_header, default template), MemorySource (+ .gz in thorough) for the '
         'rest; two complete passes, and on MemorySource every abandoned pass followed by a complete one (quick: '
-        'plain configurations only). progress/log_progress x '
+        'plain configurations only). progress/log_progress x prefix in {absent, empty, plain, with %, %-format '
+        'directives, {}-format fields, non-ASCII} x report sink given / default (stderr, captured) x logger given / '
+        'default x level x '
         'batchsize in {1, 2, n, n+1, 1000}; clock; wrap; cache(n) for n in {None, 1..rows+1} x every sequence of '
         '1..3 passes each of which is complete or abandoned after any number of items. A state is non-trivial '
         'when the table has at least one data row (tee: the target then holds more than the header; cache: '
@@ -337,9 +340,21 @@ def tee_case(op, table, kw, kind, pattern, want=_UNSET):
 
 def _wrap(op, table, arg):
     if op == 'progress':
-        return etl.progress(table, arg['batchsize'], arg.get('prefix', ''), out=io.StringIO())
+        if arg.get('out') == 'default':       # out=None: the view binds sys.stderr when it is built
+            with contextlib.redirect_stderr(io.StringIO()):
+                return etl.progress(table, arg['batchsize'], arg.get('prefix', ''))
+        if 'prefix' not in arg:
+            return etl.progress(table, arg['batchsize'], out=io.StringIO())
+        return etl.progress(table, arg['batchsize'], arg['prefix'], out=io.StringIO())
     if op == 'log_progress':
-        return etl.log_progress(table, arg['batchsize'], arg.get('prefix', ''), logger=_QUIET)
+        kw = {}
+        if arg.get('logger') != 'default':    # logger=None: petl's own module logger (INFO records go nowhere)
+            kw['logger'] = _QUIET
+        if 'level' in arg:
+            kw['level'] = arg['level']
+        if 'prefix' in arg:
+            kw['prefix'] = arg['prefix']
+        return etl.log_progress(table, arg['batchsize'], **kw)
     if op == 'clock':
         return etl.clock(table)
     if op == 'wrap':
@@ -401,7 +416,8 @@ def bounds(tier, seed):
             'errors_handlers': ERRORS, 'errors_encodings': ['ascii', 'latin-1'],
             'csv_configurations': len(csv_cfgs(tier)), 'text_configurations': len(text_cfgs(tier, ('x', 'k'))),
             'html_configurations': len(html_cfgs(tier)), 'pickle_configurations': len(pickle_cfgs(tier)),
-            'target_kinds': KINDS, 'progress_batchsizes': '1, 2, n, n+1, 1000',
+            'target_kinds': KINDS, 'progress_batchsizes': '1, 2, n, n+1, 1000', 'progress_prefixes': PREFIXES,
+            'progress_sinks': ['out=StringIO', 'out=None (stderr captured)', 'logger given', 'logger=None'],
             'cache_n': 'None, 1..rows+1', 'cache_pass_patterns': 'all sequences of 1..3 passes, each complete or '
             'abandoned after 0..rows-1 items'}
 
@@ -518,6 +534,9 @@ def _run_tee(acc, fam, lo, hi):
     acc.sample({'part': 'tee', 'family': fam, 'table': pool[lo]}, 1)
 
 
+PREFIXES = ['', 'p: ', '[50%] ', '%s %d %(x)s', '{} {0} {x}', '\xe9\u2192 ']
+
+
 def _patterns(nrows, maxpasses):
     opts = [None] + list(range(0, nrows))
     for n in range(1, maxpasses + 1):
@@ -530,9 +549,18 @@ def _run_pass(acc, lo, hi):
         nrows = len(table)
         n = nrows - 1
         sizes = sorted(set([1, 2, max(n, 1), n + 1, 1000]))
+        # the views' own options as an axis: message prefix (text that looks like a format string must stay
+        # plain text), report sink given / default, logger given / default, log level
         wrappers = [('progress', {'batchsize': b}) for b in sizes]
-        wrappers += [('progress', {'batchsize': 1, 'prefix': 'p: '})]
         wrappers += [('log_progress', {'batchsize': b}) for b in sizes]
+        for b in sizes:
+            for pf in PREFIXES:
+                wrappers.append(('progress', {'batchsize': b, 'prefix': pf}))
+                wrappers.append(('progress', {'batchsize': b, 'prefix': pf, 'out': 'default'}))
+                wrappers.append(('log_progress', {'batchsize': b, 'prefix': pf}))
+                wrappers.append(('log_progress', {'batchsize': b, 'prefix': pf, 'logger': 'default'}))
+            wrappers.append(('log_progress', {'batchsize': b, 'level': logging.DEBUG}))
+            wrappers.append(('log_progress', {'batchsize': b, 'level': logging.WARNING, 'prefix': PREFIXES[2]}))
         wrappers += [('clock', {}), ('wrap', {})]
         for op, arg in wrappers:
             for pattern in _patterns(nrows, 2):
